@@ -31,6 +31,7 @@ def _run(S, d, lmin, lmax, version, boundary, out_len, rounds, max_sel, reevalua
     est = drv.ScriptedRoundErrors(sa, d, rounds, max_sel)
     op.validation_set = None
     res = sa.performSpatiallyAdaptiv(lmin, lmax, est, tol=0.0, max_evaluations=None, print_output=False, reevaluate_at_end=reevaluate)
+    sa._verif_estimator = est
     return sa, op, res
 
 
@@ -78,6 +79,23 @@ def dimwise(S, d, lmin, lmax, version, boundary, out_len, kmax, max_sel):
     sa2, op2, res2 = _run(S, d, lmin, lmax, version, boundary, out_len, rounds, max_sel, True, f, 'B')
     r2 = [x for x in np.ravel(res2[3])]
     S.prove(sym_and(*[S.eq(result[j], r2[j]) for j in range(out_len)]), 'dimwise:reevaluate_at_end-does-not-change-result')
+    if rounds > 1:
+        return  # the second stop is explored after at most one earlier round (bounds the number of histories)
+    # (6) a second stop of the SAME instance: one more solver-chosen refinement round through continue_adaptive_refinement; the public points and
+    # weights asked for again must belong to the new stop (the scheme may or may not have changed in between)
+    sa._verif_estimator.rounds = len(sa.error_array) + 1  # the continuation first re-evaluates the stop it starts from (one more history entry), then refines once
+    n_before = int(res[6][-1])
+    sa._verif_estimator.pool = 3  # the extra round picks among the first three intervals (bounds the number of histories)
+    res3 = sa.continue_adaptive_refinement(tol=0.0, max_evaluations=None)
+    r3 = [x for x in np.ravel(res3[3])]
+    P, W = sa.get_points_and_weights()
+    tot6 = [0] * out_len
+    for p, w in zip(P, W):
+        fv = f.F([float(x) for x in p])
+        for j in range(out_len):
+            tot6[j] = tot6[j] + w * fv[j]
+    S.prove(int(res3[6][-1]) > n_before, 'dimwise:the-continuation-refined-once-more')
+    S.prove(sym_and(*[S.eq(r3[j], tot6[j]) for j in range(out_len)]), 'dimwise:points-and-weights-reproduce-result-at-a-second-stop-of-the-same-instance')
 
 
 def dimadaptive(S, d, out_len, max_points):
